@@ -32,13 +32,22 @@ var (
 	listE1     = mkList(1, "pub1.example")
 	listE2     = mkList(2, "pub2.example")
 	listCaller = mkList(9, "caller-pub.example")
-	listR1     = mkList(21, "retry1.example")
-	listR2     = mkList(22, "retry2.example")
+	// the server's retry list starts with a config of a version this library does not know (crypto/tls skips such entries):
+	// "exactly those configs" means these bytes
+	listR1 = mkListWithUnknownFirst(21, "retry1.example")
+	listR2 = mkList(22, "retry2.example")
 )
 
 func mkList(id byte, name string) []byte {
 	c := tlsref.BuildConfig(id, tlsref.DetBytes("pk"+name, 32), []tlsref.Suite{{KDF: 1, AEAD: 1}}, name)
 	return append([]byte{byte(len(c) >> 8), byte(len(c))}, c...)
+}
+
+func mkListWithUnknownFirst(id byte, name string) []byte {
+	c := tlsref.BuildConfig(id, tlsref.DetBytes("pk"+name, 32), []tlsref.Suite{{KDF: 1, AEAD: 1}}, name)
+	unknown := []byte{0xfe, 0x0e, 0, 5, 1, 2, 3, 4, 5}
+	body := append(unknown, c...)
+	return append([]byte{byte(len(body) >> 8), byte(len(body))}, body...)
 }
 
 type world struct {
